@@ -169,7 +169,7 @@ theorem nothing_included_nothing_charged (rules : Rules) (h : Handler) (prices :
         rw [h2] at hrest
         exact ih s out' hrest (fun o ho => hall o (by simp [ho]))
 
-/-- **C07 (abort)** `BuildBlock` returns an error — no block at all — exactly when some streamed
+/-- **C07 (abort)** `BuildBlock` returns an error — no block at all — only when some streamed
 transaction passes `PreExecute` on the state built so far and then makes `Execute` return an
 error; by C03's `execute_error_after_preexecute_ok` that is a zero-fee transaction whose sponsor
 has no balance record. (Known finding `build-aborts-on-zero-fee-absent-sponsor`.) -/
